@@ -16,7 +16,7 @@ func init() {
 		Explanation: "Decides the ordering clauses behind 'routes are withdrawn before the Service they point to is removed; the stable Service is un-pinned before the last stable pod is replaced; the persisted cleanup cursor never runs ahead of the effects': " +
 			"(R4.1) every finalising task sequence literal ([]FinalisingStepType) in the program, per finalise reason, satisfies the order constraints K1..K6 and the next-task lookup returns seq[0] / seq[i+1] / END under the right facts (exhaustive over table rows); " +
 			"(R4.2) in both doCanaryFinalising the case for task T dispatches to T's cleanup function; (R4.3) the stores that advance the persisted FinalisingStep cursor, the stage chain of doProgressingReset and the three stages of FinalisingTrafficRouting are reachable only through the success edges (err==nil and retry==false) of the preceding cleanup call; " +
-			"(R4.5) in the canary step machine the full-replica partition step restores the stable Service successfully before the Upgrade state is entered.",
+			"(R4.6) both doCanaryUpgrade store status.podTemplateHash (the canary Service selector) from the observed workload on every path that reports the upgrade done, so routes never point the canary Service at pods of a superseded revision; (R4.5) in the canary step machine the full-replica partition step restores the stable Service successfully before the Upgrade state is entered.",
 		NotDecided: "provider internals (whether the gateway has observed the route withdrawal before the Service goes), informer-cache staleness, that pods of a revision actually exist; R4.4 (canary Service present before EnsureRoutes) is decided under C03 R3.2.",
 		Assumptions: []string{"a crash can only land between two API writes; the cursor/order rules are the whole static content of 'at every prefix'"},
 	})
@@ -42,6 +42,8 @@ func runC04(c *Ctx) {
 	c.Rule("R4.3b", "doProgressingReset: each stage and the done result are reached only through the previous stage's success", 4)
 	c.Rule("R4.3c", "FinalisingTrafficRouting: stable Service, gateway, canary Service in that order, each after the previous one's success", 3)
 	c.Rule("R4.5", "canary StepInit: full-replica partition step restores the stable Service successfully before entering Upgrade", 1)
+	c.Rule("R4.6", "the canary selector hash is refreshed from the observed workload whenever the upgrade step completes", 2)
+	checkSelectorRefresh(c)
 
 	val := map[string]string{}
 	for _, n := range []string{tResume, tRelease, tToStable, tRestore, tRemoveSvc, tToNew, tEnd, tWait} {
@@ -496,4 +498,59 @@ func checkResetChain(c *Ctx, rule string, val map[string]string) {
 		}
 	}
 
+}
+
+// checkSelectorRefresh: R4.6.
+func checkSelectorRefresh(c *Ctx) {
+	p := c.Prog
+	for _, m := range []string{"pkg/controller/rollout.canaryReleaseManager.doCanaryUpgrade", "pkg/controller/rollout.blueGreenReleaseManager.doCanaryUpgrade"} {
+		fn := p.Func(m)
+		if fn == nil {
+			c.Unresolved("R4.6", m)
+			continue
+		}
+		isRefresh := func(in ssa.Instruction) bool {
+			st, ok := in.(*ssa.Store)
+			if !ok {
+				return false
+			}
+			fa, ok := st.Addr.(*ssa.FieldAddr)
+			if !ok {
+				return false
+			}
+			if n, _ := FieldOf(fa); n != "PodTemplateHash" {
+				return false
+			}
+			return TermOf(st.Val).Any(MField("Workload", "PodTemplateHash"))
+		}
+		n := 0
+		for _, ret := range returnsOf(fn) {
+			if len(ret.Results) != 2 {
+				continue
+			}
+			done := false
+			for _, lf := range Leaves(ret.Results[0], ret.Block()) {
+				if k, ok := lf.V.(*ssa.Const); !ok || constText(k) == "true" {
+					done = true
+				}
+			}
+			if !done {
+				continue
+			}
+			n++
+			reach, _ := CanReach(Entry(fn), func(in ssa.Instruction) bool { return in == ssa.Instruction(ret) }, ReachOpts{CutInstr: isRefresh})
+			c.Ob("R4.6", shortName(m)+"#done-return", ret.Pos(), !reach, "upgrade reported done only after status.podTemplateHash was set from the observed workload",
+				ifs(reach, "this return reports the batch upgraded while status.podTemplateHash may still be the hash of a previous revision: the canary Service would select the wrong pods (or none)"))
+		}
+		if n == 0 {
+			c.Ob("R4.6", shortName(m)+"#done-return", fn.Pos(), false, "a return reporting the upgrade done", "anchor not found")
+		}
+	}
+}
+
+func constText(k *ssa.Const) string {
+	if k.Value == nil {
+		return "nil"
+	}
+	return k.Value.String()
 }
